@@ -65,6 +65,10 @@ pub fn gen_world(seed: u64, idx: u64, s: &dyn SuiteOps) -> World {
     }
     b.interleave(&mut g, threads);
     let _ = Tape::Own(String::new());
+    // a third of the worlds run on a generator whose try_fill_bytes reports errors
+    if idx % 3 == 2 {
+        b.w.knobs.rng_try_fill_fails = true;
+    }
     b.w
 }
 
